@@ -8,6 +8,7 @@ Model: lean/St4sd/Model/Weights.lean via drv-c20.  Theorems: lean/St4sd/Props/C2
 """
 from __future__ import annotations
 
+import logging
 import math
 import os
 import shutil
@@ -89,15 +90,17 @@ def partition(rng, total, n):
     return parts
 
 
-def gen_spec(rng, n):
-    kind = rng.choice(["proper", "proper", "proper3", "near_in", "near_out", "negative", "trunc1000", "random",
-                       "missing", "malformed", "gt1", "zeros", "strings"])
+def gen_spec(rng, n, kinds=None):
+    kind = rng.choice(kinds or ["proper", "proper", "proper3", "near_in", "near_out", "negative", "trunc1000", "random",
+                                "missing", "malformed", "gt1", "zeros", "strings"])
     decimals = rng.choice([1, 2, 3, 4, 5, 6, 9])
     scale = 10 ** decimals
     step = UNIT // scale
     if kind == "proper3":
         decimals, scale, step = 3, 1000, UNIT // 1000
-    if kind in ("proper", "proper3", "strings"):
+    if kind == "proper6":
+        decimals, scale, step = 6, 10 ** 6, UNIT // 10 ** 6
+    if kind in ("proper", "proper3", "proper6", "strings"):
         us = [p * step for p in partition(rng, scale, n)]
     elif kind == "near_in":
         us = [p * step for p in partition(rng, scale, n)]
@@ -180,37 +183,152 @@ CLASSIFIERS = {}
 # StatusMonitor part
 # ----------------------------------------------------------------------------------------
 
-class _FakeStage:
-    def __init__(self, stage):
-        self._s = stage
-
-    def __getattr__(self, k):
-        return getattr(self._s, k)
+CALL_POINTS = ["stage", "stageState", "lock_acquire", "get_stages_in_transit", "get_stages_finished",
+               "lock_release", "get_stage_status"]
+IDLE, TRANSIT, FINISHED = "idle", "transit", "finished"
 
 
-class FakeController:
-    def __init__(self, exp, current, transit, finished, progress):
+class ScriptedLock:
+    """Stands for Controller.comp_lock: while the monitor holds it no other thread changes the controller's
+    component lists, i.e. scripted state changes that fall due while it is held are applied at the release."""
+
+    def __init__(self, ctl):
+        self.ctl = ctl
+        self.depth = 0
+
+    def acquire(self, blocking=True, timeout=-1):
+        self.ctl._point("lock_acquire")      # the other threads may still run just before we get the lock
+        self.depth += 1
+        return True
+
+    def release(self):
+        self.depth -= 1
+        if self.depth == 0:
+            self.ctl._flush()
+        self.ctl._point("lock_release")
+
+    def __enter__(self):
+        self.acquire()
+        return self
+
+    def __exit__(self, *a):
+        self.release()
+        return False
+
+
+class ScriptedController:
+    """A controller whose state (current stage; per stage: unknown / in transit / finished, progress numerator)
+    changes at chosen call points of the status check, as the threads of the real Controller change it
+    (finishedCheck adds the last component of a stage to comp_done -> the stage moves from the in-transit list to
+    the finished list; later stages get their first active component; the current stage advances).
+
+    Invariants of every state (those of experiment.runtime.control.Controller): a stage is in at most one of
+    the two lists; unknown stage -> get_stage_status is None; finished stage -> every component done (progress 1)."""
+
+    def __init__(self, exp, sc):
         self.exp = exp
-        self.current = current
-        self.transit = transit
-        self.finished = finished
-        self.progress = progress
-        self.comp_lock = threading.RLock()
+        n = len(exp._stages)
+        self.n = n
+        self.scale = sc["scale"]
+        self.cur = sc["current"]
+        self.label = {k: IDLE for k in range(n)}
+        self.p = {k: 0 for k in range(n)}
+        for k in sc["finished"]:
+            self.label[k] = FINISHED
+            self.p[k] = self.scale
+        for k in sc["transit"]:
+            self.label[k] = TRANSIT
+        for k, v in sc["progress"].items():
+            k = int(k)
+            if self.label[k] == IDLE:   # static scenarios of earlier versions: the current stage with a progress value
+                self.label[k] = TRANSIT
+            if self.label[k] == TRANSIT:
+                self.p[k] = v
+        self.script = {}
+        for ev in sc.get("events", []):
+            self.script.setdefault((ev["at"], ev["n"]), []).extend(ev["do"])
+        self.counter = {}
+        self.deferred = []
+        self.comp_lock = ScriptedLock(self)
+        self.snapshots = [self._snap()]
+        self.fired = []
+        self.reads = {"cur": [], "transit": [], "finished": [], "p": {}}
 
+    # -- scripted state changes ------------------------------------------------------------------------
+    def _snap(self):
+        return [self.p[k] for k in range(self.n)]
+
+    def _apply(self, ev):
+        kind = ev[0]
+        ok = False
+        if kind == "prog":
+            k, v = ev[1], ev[2]
+            if self.label.get(k) == TRANSIT and self.p[k] < v <= self.scale:
+                self.p[k] = v
+                ok = True
+        elif kind == "start":
+            k = ev[1]
+            if self.label.get(k) == IDLE:
+                self.label[k] = TRANSIT
+                ok = True
+        elif kind == "finish":
+            k = ev[1]
+            if self.label.get(k) == TRANSIT:
+                self.label[k] = FINISHED
+                self.p[k] = self.scale
+                ok = True
+        elif kind == "advance":
+            if self.cur + 1 < self.n:
+                self.cur += 1
+                ok = True
+        if ok:
+            self.fired.append(kind)
+            self.snapshots.append(self._snap())
+
+    def _flush(self):
+        evs, self.deferred = self.deferred, []
+        for ev in evs:
+            self._apply(ev)
+
+    def _point(self, name):
+        i = self.counter.get(name, 0)
+        self.counter[name] = i + 1
+        evs = self.script.get((name, i), [])
+        if self.comp_lock.depth > 0:
+            self.deferred.extend(evs)
+        else:
+            for ev in evs:
+                self._apply(ev)
+
+    # -- the part of the Controller interface the status monitor uses ---------------------------------------
     def stage(self):
-        return self.exp._stages[self.current]
+        self._point("stage")
+        self.reads["cur"].append(self.cur)
+        return self.exp._stages[self.cur]
 
-    def stageState(self, stage):
+    def stageState(self, stage=None):
+        self._point("stageState")
         return "running"
 
     def get_stages_in_transit(self):
-        return list(self.transit)
+        self._point("get_stages_in_transit")
+        r = sorted(k for k in range(self.n) if self.label[k] == TRANSIT)
+        self.reads["transit"].append(r)
+        return list(r)
 
     def get_stages_finished(self):
-        return list(self.finished)
+        self._point("get_stages_finished")
+        r = sorted(k for k in range(self.n) if self.label[k] == FINISHED)
+        self.reads["finished"].append(r)
+        return list(r)
 
     def get_stage_status(self, idx):
-        return self.progress[idx]
+        self._point("get_stage_status")
+        if self.label.get(idx, IDLE) == IDLE:
+            self.reads["p"][idx] = 0
+            return None
+        self.reads["p"][idx] = self.p[idx]
+        return self.p[idx] / float(self.scale)
 
     def generate_status_report_for_nodes(self, *a, **k):
         return ""
@@ -232,8 +350,9 @@ def impl_monitor(spec, scenarios, workdir):
     except Exception as exc:
         return {"error": type(exc).__name__}
     mon = O.StatusMonitor(exp, report_components=False)
+    mon.log.setLevel(logging.CRITICAL)
     res = {"stageWeights": [int(round(float(w) * UNIT)) for w in mon.stageWeights],
-           "floats": [float(w) for w in mon.stageWeights], "totals": []}
+           "floats": [float(w) for w in mon.stageWeights], "totals": [], "runs": []}
     captured = {}
 
     def fake_create(interval, action, cancelEvent=None, name=None, **kw):
@@ -243,45 +362,80 @@ def impl_monitor(spec, scenarios, workdir):
     M.CreateMonitor = fake_create
     try:
         for sc in scenarios:
-            ctl = FakeController(exp, sc["current"], sc["transit"], sc["finished"],
-                                 {int(k): v / sc["scale"] for k, v in sc["progress"].items()})
-            mon.run(ctl)
-            captured["action"](False)
-            res["totals"].append(float(exp.statusFile.totalProgress()))
+            ctl = ScriptedController(exp, sc)
+            try:
+                mon.run(ctl)
+                captured["action"](False)
+                res["totals"].append(float(exp.statusFile.totalProgress()))
+            except Exception as exc:  # noqa
+                res["totals"].append(None)
+                res["runs"].append({"error": type(exc).__name__ + ": " + str(exc)[:200]})
+                continue
+            res["runs"].append({"snapshots": ctl.snapshots, "fired": ctl.fired, "reads": ctl.reads,
+                                "calls": dict(ctl.counter), "lock_balanced": ctl.comp_lock.depth == 0})
     finally:
         M.CreateMonitor = orig
     return res
 
 
 def gen_scenario(rng, n):
+    """initial controller state + scripted state changes at call points of the check"""
     scale = 1000
-    order = list(range(n))
     current = rng.randrange(n)
-    others = [i for i in order if i != current]
-    finished = [i for i in others if rng.random() < 0.5]
-    rest = [i for i in others if i not in finished]
-    transit = [i for i in rest if rng.random() < 0.5]
+    label = {}
+    for k in range(n):
+        if k < current:
+            label[k] = rng.choice([FINISHED, FINISHED, FINISHED, TRANSIT, IDLE])
+        elif k == current:
+            label[k] = rng.choice([TRANSIT, TRANSIT, TRANSIT, FINISHED, IDLE])
+        else:
+            label[k] = rng.choice([IDLE, IDLE, TRANSIT, TRANSIT, FINISHED])
+    if n > 16:   # keep the number of per-stage progress reads moderate for long workflows
+        for k in range(n):
+            if label[k] == TRANSIT and k != current and rng.random() < 1.0 - 8.0 / n:
+                label[k] = rng.choice([IDLE, FINISHED])
     progress = {}
-    for i in [current] + transit:
-        progress[str(i)] = rng.choice([0, scale, rng.randint(0, scale)])
-    if rng.random() < 0.25:  # everything complete
-        finished = others
-        transit = []
-        progress = {str(current): scale}
-    return {"scale": scale, "current": current, "transit": transit, "finished": finished, "progress": progress}
+    for k in range(n):
+        if label[k] == TRANSIT:
+            progress[str(k)] = rng.choice([0, scale, rng.randint(0, scale)])
+    if rng.random() < 0.2:  # everything complete
+        for k in range(n):
+            if label[k] == IDLE or (k != current and rng.random() < 0.7):
+                label[k] = FINISHED
+                progress.pop(str(k), None)
+            if label[k] == TRANSIT:
+                progress[str(k)] = scale
+    transit = [k for k in range(n) if label[k] == TRANSIT]
+    finished = [k for k in range(n) if label[k] == FINISHED]
+    events = []
+    for _ in range(rng.choice([0, 1, 2, 2, 3, 4])):
+        at = rng.choice(CALL_POINTS + ["get_stage_status", "get_stages_finished", "get_stages_in_transit"])
+        nth = rng.randrange(0, 3) if at == "get_stage_status" else 0
+        kind = rng.choice(["finish", "finish", "finish", "start", "prog", "advance"])
+        if kind == "finish" and transit:
+            do = ["finish", rng.choice(transit)]
+        elif kind == "prog" and transit:
+            do = ["prog", rng.choice(transit), rng.choice([scale, rng.randint(1, scale)])]
+        elif kind == "start":
+            do = ["start", rng.randrange(n)]
+        else:
+            do = ["advance"]
+        events.append({"at": at, "n": nth, "do": [do]})
+    return {"scale": scale, "current": current, "transit": transit, "finished": finished, "progress": progress,
+            "events": events}
 
 
-def model_progress_request(sc, ws):
-    ps = []
-    wsel = []
-    for i, w in enumerate(ws):
-        if str(i) in sc["progress"]:
-            ps.append(sc["progress"][str(i)])
-            wsel.append(w)
-        elif i in sc["finished"]:
-            ps.append(sc["scale"])
-            wsel.append(w)
-    return {"op": "progress", "ps": ps, "ws": wsel}
+def snapshot_totals(run, floats, scale):
+    """exact weighted progress of every state the controller went through during the check"""
+    ws = [Fraction(w) for w in floats]
+    return [sum((w * p for w, p in zip(ws, snap)), Fraction(0)) / scale for snap in run["snapshots"]]
+
+
+def model_check_request(sc, run, ws):
+    """what this check read from the controller (last answer of each call)"""
+    rd = run["reads"]
+    return {"op": "check", "scale": sc["scale"], "cur": rd["cur"][0], "transit": rd["transit"][-1],
+            "finished": rd["finished"][-1], "ps": [rd["p"].get(k, 0) for k in range(len(ws))], "ws": ws}
 
 
 # ----------------------------------------------------------------------------------------
@@ -327,34 +481,64 @@ def check_monitor_cases(ctx, cases):
             if "error" in out:
                 ctx.fail("monitor-raises-" + out["error"], case, out)
                 continue
-            lo = impl_loader(spec)
+            lo_ = impl_loader(spec)
+            slim = {"stageWeights": out["stageWeights"], "floats": out["floats"]}
             why = oracle_weights(spec, {"floats": out["floats"], "weights": out["stageWeights"]})
             if why:
-                ctx.fail("monitor:" + why, case, out)
-            if "error" not in lo and lo["weights"] != out["stageWeights"]:
-                ctx.fail("monitor-weights-differ-from-loaded-weights", case, {"loader": lo, "monitor": out})
-            for sc, total in zip(scenarios, out["totals"]):
+                ctx.fail("monitor:" + why, dict(case, scenarios=[]), slim)
+            if "error" not in lo_ and lo_["weights"] != out["stageWeights"]:
+                # position by position: stageWeights[i] must be the loaded weight of stage i
+                bad = [i for i, (a, b) in enumerate(zip(lo_["weights"], out["stageWeights"])) if a != b]
+                ctx.fail("monitor-weights-differ-from-loaded-weights", dict(case, scenarios=[]),
+                         {"positions": bad[:20], "loader": lo_["weights"], "monitor": out["stageWeights"]})
+            for sc, total, rn in zip(scenarios, out["totals"], out["runs"]):
+                case1 = dict(case, scenarios=[sc])   # every check is independent of the earlier ones
+                if "error" in rn:
+                    ctx.fail("status-check-raises-" + rn["error"].split(":")[0], case1, {"scenario": sc, "error": rn["error"]})
+                    continue
+                for f in set(rn["fired"]):
+                    ctx.tag("controller-change:" + f)
+                ctx.tag("controller-changes-during-check:%d" % min(len(rn["fired"]), 3))
                 if not (-1e-12 <= total <= 1.0 + 1e-6 + 1e-9):
-                    ctx.fail("total-progress-outside-unit-interval", case, {"scenario": sc, "total": total})
-                complete = (len(sc["finished"]) + len(sc["progress"]) == len(spec)
-                            and all(v == sc["scale"] for v in sc["progress"].values()))
+                    ctx.fail("total-progress-outside-unit-interval", case1, {"scenario": sc, "total": total})
+                snaps = snapshot_totals(rn, out["floats"], sc["scale"])
+                lo, hi = min(snaps), max(snaps)
+                eps = Fraction(1, 10 ** 9)
+                if not (lo - eps <= Fraction(total) <= hi + eps):
+                    # the total is a weighted sum of per-stage progress values that the stages never had together:
+                    # below / above the weighted progress of every state the controller went through
+                    ctx.fail("total-progress-matches-no-controller-state", case1,
+                             {"scenario": sc, "total": total, "lowest_state_total": float(lo),
+                              "highest_state_total": float(hi), "reads": rn["reads"]})
+                complete = all(p == sc["scale"] for p in rn["snapshots"][0])
                 if complete:
                     ctx.tag("scenario:complete")
                     if abs(total - 1.0) > 1e-6 + 1e-9:
-                        ctx.fail("total-progress-not-one-when-complete", case, {"scenario": sc, "total": total})
-            if ctx.driver is not None and "error" not in lo:
+                        ctx.fail("total-progress-not-one-when-complete", case1, {"scenario": sc, "total": total})
+            if ctx.driver is not None and "error" not in lo_:
                 us = units_of(spec)
                 mw = ctx.model([{"op": "normalize", "ws": us}] if us is not None else [{"op": "fallback", "n": len(spec)}])[0]
-                ctx.compare("StatusMonitor.stageWeights == Weights.normalize", case,
-                            {"weights": mw["weights"], "monitor_keeps": mw.get("monitor_keeps", True)},
-                            {"weights": out["stageWeights"], "monitor_keeps": True})
-                reqs = [model_progress_request(sc, mw["weights"]) for sc in scenarios]
-                for sc, total, mo in zip(scenarios, out["totals"], ctx.model(reqs)):
+                mm = ctx.model([{"op": "monitor", "ws": mw["weights"]}])[0]
+                ctx.compare("StatusMonitor.stageWeights == Weights.monitorWeights (position by position)", case,
+                            {"kept": True, "weights": mm["weights"]},
+                            {"kept": mm["kept"], "weights": out["stageWeights"]})
+                pairs = []
+                for sc, total, rn in zip(scenarios, out["totals"], out["runs"]):
+                    if "error" in rn:
+                        continue
+                    rd = rn["reads"]
+                    if not (len(rd["cur"]) >= 1 and len(rd["transit"]) == 1 and len(rd["finished"]) == 1):
+                        ctx.tag("check-read-the-lists-not-exactly-once")
+                        continue
+                    pairs.append((sc, total, rn, model_check_request(sc, rn, mw["weights"])))
+                mouts = ctx.model([p[3] for p in pairs]) if pairs else []
+                for (sc, total, rn, rq), mo in zip(pairs, mouts):
+                    ctx.tag("reads:partition" if mo["partition"] else "reads:not-a-partition")
                     exact = Fraction(mo["total"], sc["scale"] * UNIT)
                     ok = abs(Fraction(total) - exact) < Fraction(1, 10 ** 9)
-                    ctx.compare("total progress == Weights.progress/(scale*one) within 1e-9", case,
+                    ctx.compare("total progress == Weights.checkTotal(what the check read)/(scale*one) within 1e-9", case,
                                 {"agree": True}, {"agree": ok, "impl_total": total, "model_total": float(exact),
-                                                  "scenario": sc} if not ok else {"agree": True})
+                                                  "scenario": sc, "reads": rd} if not ok else {"agree": True})
     finally:
         os.chdir(cwd)
         shutil.rmtree(tmp, ignore_errors=True)
@@ -371,16 +555,52 @@ CORPUS = [
 ]
 
 
+def _last_heavy(n):
+    """n stages, 0.01 each, the last one carries the rest"""
+    return [{"u": 10 * 10 ** 6}] * (n - 1) + [{"u": UNIT - (n - 1) * 10 * 10 ** 6}]
+
+
+MONITOR_CORPUS = [
+    ("corpus:12-stages-last-heavy", _last_heavy(12)),
+    ("corpus:11-stages-increasing", [{"u": (k + 1) * 10 * 10 ** 6} for k in range(10)] + [{"u": 450 * 10 ** 6}]),
+]
+
+# (kind, spec, scenarios): interleavings kept as regression inputs
+MONITOR_SCENARIO_CORPUS = [
+    # a non-current stage completes between the reads of the check (at every call point in turn)
+    ("corpus:stage-completes-during-check", [{"u": 100000000}, {"u": 800000000}, {"u": 100000000}],
+     [{"scale": 1000, "current": 0, "transit": [0, 1], "finished": [], "progress": {"0": 1000, "1": 1000},
+       "events": [{"at": at, "n": 0, "do": [["finish", 1]]}]} for at in CALL_POINTS]),
+    # the current stage completes and the controller advances while the check runs
+    ("corpus:current-stage-advances-during-check", [{"u": 300000000}, {"u": 300000000}, {"u": 400000000}],
+     [{"scale": 1000, "current": 0, "transit": [0, 1], "finished": [], "progress": {"0": 900, "1": 500},
+       "events": [{"at": at, "n": 0, "do": [["prog", 0, 1000], ["finish", 0], ["advance"], ["start", 2]]}]}
+      for at in CALL_POINTS]),
+    # the current stage is already in the finished list
+    ("corpus:current-stage-finished", [{"u": 500000000}, {"u": 500000000}],
+     [{"scale": 1000, "current": 0, "transit": [1], "finished": [0], "progress": {"1": 250}, "events": []},
+      {"scale": 1000, "current": 1, "transit": [], "finished": [0, 1], "progress": {}, "events": []}]),
+]
+
+
 def run(ctx):
     ctx.rule = ("cases = stage-weight lists (1..64 stages quick, up to 1200 thorough) drawn from 13 classes "
                 "(proper at 1-9 decimals, near the tolerance inside/outside, negative with sum one, truncated "
                 "thousandths summing to 1000, >1, zeros, missing, malformed/non-finite, strings); non-trivial = "
                 ">= 2 stages and not all zero; distinct by canonical JSON of the case. Monitor cases additionally "
-                "build a real Experiment+StatusMonitor and run the real CheckStatus closure on random "
-                "finished/in-transit/in-progress masks.")
+                "build a real Experiment+StatusMonitor (1..13 stages of every class, and proper non-uniform weights "
+                "for 10, 11, 12, 13, 21, 101 stages quick / 7..23, 99..102, 111, 201, 1001 thorough; stageWeights compared "
+                "position by position with the loaded weights) and run the real CheckStatus closure against a scripted "
+                "controller: random unknown/in-transit/finished labelling of all stages (current stage included) and "
+                "0-4 state changes (a stage completes, a stage starts, progress grows, the current stage advances) "
+                "fired at chosen call points of the check (stage, stageState, comp_lock acquire/release, the two list "
+                "reads, the n-th get_stage_status); changes that fall due while comp_lock is held happen at its release.")
     ctx.assumptions = ["CPython float addition error on the generated sums (< 1e-12) is below one model unit (1e-9); "
                        "generated sums are kept >= 2 units away from the 1e-6 tolerance boundary",
-                       "fake controller supplies stage progress values; _getProgress (external status script) not run"]
+                       "scripted controller supplies stage progress values; _getProgress (external status script) not run",
+                       "controller states obey the invariants of control.Controller: a stage is in at most one of the "
+                       "in-transit/finished lists, an unknown stage has no progress, a finished stage has progress 1, "
+                       "progress never decreases; comp_lock excludes state changes while held"]
     ctx.trusted.append("C20: weights abstracted to integer units of 1e-9; float rounding trusted as stated in assumptions")
     rng = ctx.rng
     quick = ctx.tier == "quick"
@@ -395,9 +615,16 @@ def run(ctx):
             cases.append(gen_spec(rng, n))
     check_loader_cases(ctx, cases)
     mcases = []
-    for kind, spec in CORPUS[:3] + [gen_spec(rng, rng.randint(1, 6)) for _ in range(25 if quick else 150)]:
+    # stage counts on both sides of 10 and 100 (and 1000 thorough): an order by stage NAME differs from the order by
+    # stage index from 11 stages on; weights proper and non-uniform so that a misplaced weight shows
+    wide = [10, 11, 12, 13, 21, 101] if quick else list(range(7, 24)) + [99, 100, 101, 102, 111, 201, 1001]
+    mspecs = list(MONITOR_CORPUS) + CORPUS[:3]
+    mspecs += [gen_spec(rng, rng.randint(1, 13)) for _ in range(25 if quick else 150)]
+    mspecs += [gen_spec(rng, n, kinds=["proper6", "proper3"] if n <= 1000 else ["proper6"]) for n in wide]
+    for kind, spec in mspecs:
         n = len(spec)
-        mcases.append((kind, spec, [gen_scenario(rng, n) for _ in range(4)]))
+        mcases.append((kind, spec, [gen_scenario(rng, n) for _ in range(4 if n <= 100 else 2)]))
+    mcases += MONITOR_SCENARIO_CORPUS
     check_monitor_cases(ctx, mcases)
 
 
